@@ -107,18 +107,23 @@ func genPager(r *Rng, g *PageGen) pagerCase {
 		desc["page_url"] = "userinfo"
 	}
 	rel := func(abs string) string {
-		// relative spelling of an on-site URL
+		// relative spelling of an on-site URL, now and then with a fragment
 		pu, err := nurl.Parse(abs)
 		if err != nil {
 			return abs
 		}
+		frag := ""
+		if r.Chance(12) {
+			frag = r.Pick("#top", "#article", "#page-2", "#comments", "#")
+			desc["href-fragment"] = "1"
+		}
 		switch r.Intn(4) {
 		case 0:
-			return abs
+			return abs + frag
 		case 1:
-			return "//" + pu.Host + pu.RequestURI()
+			return "//" + pu.Host + pu.RequestURI() + frag
 		default:
-			return pu.RequestURI()
+			return pu.RequestURI() + frag
 		}
 	}
 	junkHref := func() (string, string) {
@@ -244,6 +249,12 @@ func genPager(r *Rng, g *PageGen) pagerCase {
 		return fmt.Sprintf(`<a href="%s"%s>%s</a>`, href, cls, labelText)
 	}
 	var before, after string
+	selfLink := ""
+	if r.Chance(10) {
+		// a labelled anchor to a place inside the page the reader is on
+		selfLink = fmt.Sprintf(`<a class="%s" href="%s%s">%s</a> `, r.Pick("next", "prev", "nav"), rel(u(k)), r.Pick("#top", "#page-2", "#comments"), r.Pick("Next »", "« Previous", "next", "Back to top"))
+		desc["self-link-with-fragment"] = "1"
+	}
 	if r.Chance(60) {
 		before = nav(r.Pick("Prev", "Previous", "« Prev", "&lt;", "Newer", "First", "previous page"), k-1)
 	}
@@ -274,7 +285,7 @@ func genPager(r *Rng, g *PageGen) pagerCase {
 			close = close[:len(close)-len(`</div></div>`)] + `</div></section>`
 		}
 	}
-	pager := open + before + sep + strings.Join(items, sep) + sep + after + close
+	pager := open + selfLink + before + sep + strings.Join(items, sep) + sep + after + close
 	var sb strings.Builder
 	base := ""
 	if r.Chance(12) {
@@ -389,6 +400,10 @@ func checkPagingLink(link string, page *nurl.URL, targets map[string]bool) (clau
 	}
 	if !strings.EqualFold(u.Host, page.Host) {
 		return "off-site", fmt.Sprintf("%q is on host %q, the page is on %q", link, u.Host, page.Host)
+	}
+	if u.Fragment != "" || strings.HasSuffix(link, "#") {
+		// "the normalised target": both finders strip the fragment when they clean an href
+		return "not-normalised", fmt.Sprintf("%q still carries a fragment", link)
 	}
 	c, ok := canonURL(link)
 	if !ok || !targets[c] {
